@@ -517,7 +517,58 @@ TEMPLATES = {
 }
 
 
+def _name_nodes(graph: onnx.GraphProto, counter: list[int]) -> None:
+    """The converter names every node (node_<Op>_<n>); optimizer passes derive value names from them."""
+    for n in graph.node:
+        n.name = f"node_{n.op_type}_{counter[0]}"
+        counter[0] += 1
+        for a in n.attribute:
+            if a.type == onnx.AttributeProto.GRAPH:
+                _name_nodes(a.g, counter)
+            elif a.type == onnx.AttributeProto.GRAPHS:
+                for g in a.graphs:
+                    _name_nodes(g, counter)
+
+
+def t_pair(r: dict[str, Any]) -> onnx.ModelProto:
+    """Two independently drawn pattern instances in ONE graph (a rewrite that fires twice must not
+    let the second application disturb the first: shared names, shared new initializers, stale node lists)."""
+    from onnx import compose
+
+    ma, mb = build(r["a"]), build(r["b"])
+    mb = compose.add_prefix(mb, "p2_", rename_functions=True) if "rename_functions" in compose.add_prefix.__code__.co_varnames else compose.add_prefix(mb, "p2_")
+    m = onnx.ModelProto()
+    m.CopyFrom(ma)
+    g, gb = m.graph, mb.graph
+    if r.get("interleave"):
+        na, nb = list(ma.graph.node), list(gb.node)
+        del g.node[:]
+        while na or nb:
+            if na:
+                g.node.append(na.pop(0))
+            if nb:
+                g.node.append(nb.pop(0))
+    else:
+        g.node.extend(gb.node)
+    g.input.extend(gb.input)
+    g.output.extend(gb.output)
+    g.initializer.extend(gb.initializer)
+    g.value_info.extend(gb.value_info)
+    have = {(f.domain, f.name) for f in m.functions}
+    for f in mb.functions:
+        if (f.domain, f.name) not in have:
+            m.functions.append(f)
+    doms = {o.domain for o in m.opset_import}
+    for o in mb.opset_import:
+        if o.domain not in doms:
+            m.opset_import.append(o)
+    _name_nodes(g, [0])
+    return m
+
+
 def build(recipe: dict[str, Any]) -> onnx.ModelProto:
+    if recipe["t"] == "pair":
+        return t_pair(recipe)
     return TEMPLATES[recipe["t"]](recipe)
 
 
@@ -671,6 +722,9 @@ WEIGHTS = {
 }
 
 
+PAIRABLE = ("transpose_chain", "transpose_reduce", "add_forest", "reshape_pair", "identity_reshape", "cast_pair", "mul_sigmoid", "mul_rsqrt", "range_cast", "in_if")
+
+
 def recipes(n: int, seed: int) -> list[dict[str, Any]]:
     rng = np.random.default_rng([seed, 202])
     names = list(WEIGHTS)
@@ -682,4 +736,13 @@ def recipes(n: int, seed: int) -> list[dict[str, Any]]:
         r = sample(t, rng)
         r["id"] = f"{t}:{i}"
         out.append(r)
+    # one graph, two pattern instances (same template twice in 2 of 3 draws): separate stream, the singles stay as they were
+    rng2 = np.random.default_rng([seed, 303])
+    for i in range(max(1, n // 7)):
+        ta = str(rng2.choice(PAIRABLE))
+        tb = ta if rng2.random() < 0.67 else str(rng2.choice(PAIRABLE))
+        a = sample(ta, rng2)
+        b = sample(tb, rng2)
+        b["opset"] = a["opset"]
+        out.append({"t": "pair", "a": a, "b": b, "opset": a["opset"], "seed": int(rng2.integers(2**31)), "interleave": bool(rng2.random() < 0.5), "id": f"pair[{ta}+{tb}]:{i}"})
     return out
